@@ -14,6 +14,9 @@ HARNESSES = [
     # a second compiler at -O2
     {"name": "clang", "src": "harness.cpp", "compiler": "clang++-14", "flags": ["-O2", "-DTETL_ENABLE_CONTRACT_CHECKS=1"],
      "thorough_only": True},
+    # the RELEASE build: TETL_PRECONDITION compiled out, the day / month constructors only narrow; the driver gets the
+    # same environment variable and answers with the release model (coq/C11/ModelRev.v, C11_rev_release_build)
+    {"name": "nochk", "src": "harness.cpp", "flags": ["-O2"], "env": {"C11_NOCHK": "1"}, "thorough_only": True},
 ]
 
 DAY_LO, DAY_HI = -12687428, 11248737
@@ -78,7 +81,7 @@ def gen(tier, rng):
     for z in [-2147483648, -2147483647, 2147483643, 2147483642, -5, -4, -3, 0] + [rng.randint(-2**31, 2**31 - 5) for _ in range(500)]:
         out.append(f"weekday {z}")
     # --- dates
-    years = [-32767, -32766, -400, -100, -4, -1, 0, 1, 4, 100, 400, 1600, 1900, 1970, 2000, 2023, 2024, 2100, 32766, 32767]
+    years = [-32768, -32767, -32766, -400, -100, -4, -1, 0, 1, 4, 100, 400, 1600, 1900, 1970, 2000, 2023, 2024, 2100, 32766, 32767]
     if not quick:
         years += list(range(-32767, 32768, 37))
     years += [rng.randint(-32767, 32767) for _ in range(30 if quick else 600)]
@@ -101,6 +104,10 @@ def gen(tier, rng):
             out.append(f"month_plus {m} {dm}")
         for m2 in range(1, 13):
             out.append(f"month_minus {m} {m2}")
+    # month - month on stored values that are not ok(): unspecified value (no reference), defined, model tie
+    for a in [0, 1, 12, 13, 14, 127, 128, 254, 255]:
+        for b in [0, 1, 12, 13, 200, 255]:
+            out.append(f"month_minus {a} {b}")
     for y in [-32767, -1, 0, 1, 1999, 2020, 32767] + [rng.randint(-32000, 32000) for _ in range(10 if quick else 200)]:
         for m in range(1, 13):
             for dm in list(range(-40, 41)) + [rng.randint(-5000, 5000) for _ in range(4)]:
@@ -110,7 +117,30 @@ def gen(tier, rng):
         for dy in [-3, -1, 0, 1, 5, 100]:
             if -32767 <= y + dy <= 32767:
                 out.append(f"year_plus {y} {dy}")
+        # the whole months range that keeps the year representable (+-786 000), results outside it (int16 wrap: no
+        # reference), month values that are not ok() (unspecified, no reference) and the int32 limits of the delta
+        for m in [0, 1, 2, 11, 12, 13, 14, 100, 254, 255]:
+            for dm in [0, 1, -1, 11, -11, 12, -12, 13, -13, 786000, -786000, 393215, -393217, 2**31 - 1, -(2**31 - 1),
+                       rng.randint(-800000, 800000), rng.randint(-800000, 800000), rng.randint(-2**31 + 1, 2**31 - 1)]:
+                out.append(f"ym_plus {y} {m} {dm}")
+    for _ in range(400 if quick else 40000):
+        y = rng.randint(-32767, 32767)
+        out.append(f"ym_plus {y} {rng.randint(1, 12)} {rng.randint(-(32767 + y) * 12 - 11, (32767 - y) * 12 + 11)}")
+    for y in [-32768, 32767, 0]:
+        for dm in [0, 1, -1, 12, -12]:
+            out.append(f"ym_plus {y} {rng.randint(1, 12)} {dm}")
+    # every stored weekday value: [time.cal.wd.nonmembers] defines + / - / ++ / -- through the stored value, ok() or not;
+    # weekday - weekday is unspecified unless both are ok() (no reference there, model tie only)
+    for w in list(range(7, 13)) + [127, 128, 200, 254, 255]:
+        out.append(f"wd_incdec {w}")
+        for dd in list(range(-8, 9)) + [-2147483648, -2147483647, 2147483647, 255, 256, -255, -256, rng.randint(-10**6, 10**6)]:
+            out.append(f"wd_plus {w} {dd}")
+            out.append(f"wd_minus {w} {dd}")
+        for w2 in [0, 1, 6, 7, 8, 200, 255]:
+            out.append(f"wd_diff {w} {w2}")
+            out.append(f"wd_diff {w2} {w}")
     for w in range(0, 7):
+        out.append(f"wd_plus {w} -2147483648")
         out.append(f"wd_incdec {w}")
         for dd in list(range(-20, 21)) + [-2147483647, 2147483647, 255, 256, -255, -256, 1000, -1000] + [rng.randint(-10**6, 10**6) for _ in range(5)]:
             out.append(f"wd_plus {w} {dd}")
@@ -185,6 +215,9 @@ def gen_cal(tier, rng, quick):
         for (m, d) in [(1, 31), (2, 29), (3, 31), (12, 31), (1, 29), (1, 30)]:
             for dm in [1, -1, 11, 12, -12, 13, 25, -23]:
                 out.append(f"ymd_arith {y} {m} {d} {dm} {rng.choice([1, -1, 4, 3])}")
+        # month values that are not ok(): unspecified (no reference), the day must still be kept
+        for m in [0, 13, 255]:
+            out.append(f"ymd_arith {y} {m} {R(0, 255)} {rng.choice(dms)} {rng.choice([0, 1, -1, 4])}")
     # --- year_month_day_last, year_month_weekday(_last)
     yall = ys if quick else ys + list(range(-32767, 32768, 41))
     for y in yall:
@@ -206,10 +239,21 @@ def gen_cal(tier, rng, quick):
             out.append(f"ymdl_ok {y} {m}")
             out.append(f"ymwd_ok {y} {m} {R(0, 6)} {R(1, 5)}")
             out.append(f"ymwdl_ok {y} {m} {R(0, 6)}")
+        # operator sys_days on fields that are not ok(): defined (no overflow, no table overrun: sanitizer build),
+        # value unspecified (no reference), model tie
+        for m in [0, 13, 254, 255, R(1, 12)]:
+            w = rng.choice([7, 8, 9, 127, 128, 254, 255])
+            out.append(f"ymwd_to {y} {m} {w} {R(0, 255)}")
+            out.append(f"ymwd_to {y} {m} {R(0, 6)} {R(0, 255)}")
+            out.append(f"ymwdl {y} {m} {w}")
+            out.append(f"ymwdl {y} {m} {R(0, 6)}")
+            out.append(f"ymdl_arith {y} {m} {rng.choice(dms)} {rng.choice([0, 1, -1])}")
+            out.append(f"ymwd_arith {y} {m} {w} {R(0, 255)} {rng.choice(dms)} {rng.choice([0, 1, -1])}")
+            out.append(f"ymwdl_arith {y} {m} {w} {rng.choice(dms)} {rng.choice([0, 1, -1])}")
         out.append(f"ymwd_ok {y} {R(1, 12)} {R(7, 8)} {R(1, 5)}")
         out.append(f"ymwdl_ok {y} {R(1, 12)} {R(7, 255)}")
         out.append(f"ymdl_ok {y} {R(1, 12)}")
-        for _ in range(4):
+        for _ in range(8):
             m, w, idx = R(1, 12), R(0, 6), R(1, 5)
             dm = rng.choice(dms + [R(-5000, 5000)])
             dy = rng.choice([0, 1, -1, 4, -4, 100, R(-500, 500)])
@@ -218,6 +262,8 @@ def gen_cal(tier, rng, quick):
             out.append(f"ymwdl_arith {y} {m} {w} {dm} {dy}")
     for m in [0, 1, 12, 13]:
         for w in [0, 6, 7, 8]:
+            out.append(f"ymwd_to -32768 {m} {w} {R(0, 255)}")
+            out.append(f"ymwdl -32768 {m} {w}")
             out.append(f"ymwd_ok -32768 {m} {w} 1")
             out.append(f"ymwdl_ok -32768 {m} {w}")
         out.append(f"ymdl_ok -32768 {m}")
@@ -239,6 +285,11 @@ def gen_cal(tier, rng, quick):
     for _ in range(1500 if quick else 100000):
         zs.add(R(DAY_LO, DAY_HI))
     for z in sorted(z for z in zs if DAY_LO <= z <= DAY_HI):
+        out.append(f"ymwd_from {z}")
+    # ... and outside the supported years, up to the last day count civil_from_days accepts: defined, model tie only
+    ZMAX0 = 2**31 - 1 - 719468
+    for z in [ZMAX0, ZMAX0 - 1, -2**31, -2**31 + 1, DAY_HI + 1, DAY_LO - 1, DAY_HI + 400, DAY_LO - 400] \
+            + [R(-2**31, ZMAX0) for _ in range(100 if quick else 5000)]:
         out.append(f"ymwd_from {z}")
     # --- the kernels on their whole argument types (totality: defined, impl = model; no reference)
     ZMAX = 2**31 - 1 - 719468
